@@ -11,17 +11,19 @@ import (
 // "C:" text CR crc16 and "D:" len16 payload crc16; TNC->host frames are
 // "c:" text CR crc16 and "d:" len16 "ARQ" payload crc16 (big-endian).
 type emuARDOP struct {
-	toHost   chan []byte
-	left     []byte
-	wbuf     []byte
-	cmds     []string // commands received, in order
-	dataIn   []byte   // payload of accepted D frames
-	bad      string   // first protocol violation seen
-	faults   int      // number of D frames to answer with CRCFAULT first
-	dframes  [][]byte // raw D frames as received (to compare retransmissions)
-	mycall   string
-	closed   bool
-	pttPlan  bool
+	toHost  chan []byte
+	left    []byte
+	wbuf    []byte
+	cmds    []string // commands received, in order
+	dataIn  []byte   // payload of accepted D frames
+	bad     string   // first protocol violation seen
+	faults  int      // number of D frames to answer with CRCFAULT first
+	dframes [][]byte // raw D frames as received (to compare retransmissions)
+	mycall  string
+	closed  bool
+	pttPlan bool
+	early   []byte // ARQ payload delivered right after the connection is up: before the reply to the host's next query
+	called  bool
 }
 
 // The emulator computes CRCs with the library's crc16Sum: H_c14_crc proves it
@@ -140,6 +142,11 @@ func (e *emuARDOP) command(text string) {
 			e.mycall = arg
 			e.say("MYCALL now " + arg)
 		} else {
+			if e.called && len(e.early) > 0 {
+				// the remote station's first data arrives while the host is still busy with its own queries
+				e.sayData(e.early)
+				e.early = nil
+			}
 			e.say("MYCALL " + e.mycall)
 		}
 	case "ARQCALL":
@@ -148,6 +155,7 @@ func (e *emuARDOP) command(text string) {
 		e.say("PTT TRUE")
 		e.say("PTT FALSE")
 		e.say("CONNECTED " + strings.SplitN(arg, " ", 2)[0] + " 500")
+		e.called = true
 	case "DISCONNECT":
 		e.say("NEWSTATE DISC")
 		e.say("DISCONNECTED")
@@ -176,6 +184,8 @@ func (p *recPTT) SetPTT(on bool) error { p.events = append(p.events, on); return
 // the real TNC control loop, broadcaster and connection against the emulator
 func H_c14_session() {
 	emu := &emuARDOP{toHost: make(chan []byte, 256), faults: symInt(0, 2), pttPlan: symInt(0, 1) == 1}
+	early := symBytes(symInt(0, 2))
+	emu.early = early
 	tnc, err := Open(emu, "N0CALL", "JP20QE")
 	symAssert(err == nil && tnc != nil, "open-ok")
 	ptt := &recPTT{}
@@ -194,7 +204,7 @@ func H_c14_session() {
 	if len(in2) > 0 {
 		emu.sayData(in2)
 	}
-	want := append(append([]byte(nil), in1...), in2...)
+	want := append(append(append([]byte(nil), early...), in1...), in2...)
 	bufsz := symInt(1, 4)
 	var got []byte
 	for len(got) < len(want) {
